@@ -471,8 +471,8 @@ fn determine_delta_compressability(ints: &[i64]) -> DeltaStats {
         previous_delta = delta;
     }
 
-    if ints.len() < 3 {
-        // no second difference exists: not double-delta compressible
+    if ints.len() < 3 || min_delta < i64::MIN as i128 || max_delta > i64::MAX as i128 {
+        // no second difference exists, or a first difference does not fit i64: not double-delta compressible
         min_delta_delta = i128::MIN;
         max_delta_delta = i128::MAX;
     }
